@@ -4,6 +4,7 @@ package main
 // replacement); only symbolically indexed regions become SMT arrays.
 
 import (
+	"sync"
 	"fmt"
 	"go/types"
 	"strings"
@@ -29,6 +30,7 @@ type Obligation struct {
 	Time   float64
 	Output string
 	Vacuity bool // an obligation that must NOT be provable (false-refutation guard)
+	dupOf   *Obligation
 }
 
 type collector struct {
@@ -71,6 +73,11 @@ type Exec struct {
 	noName   int
 	inEntry  int
 	preLen   int
+	reach    map[*Obj]map[*Obj]bool
+	dummies  map[string]*Obj
+	qdecl    []qline
+	qscript  []qline
+	qmu      sync.Mutex
 }
 
 type modEntry struct {
@@ -716,7 +723,7 @@ func (ex *Exec) havocPrefix(st *State, o *Obj, prefix string, why string) {
 				continue
 			}
 		} else {
-			nv = ex.freshVal(lf.typ, nm)
+			nv = ex.shapeHavoc(st, o, lf.key, lf.typ, nm)
 		}
 		for _, c := range ex.colls {
 			if c.written[full] == nil {
@@ -869,4 +876,46 @@ func (ex *Exec) storePtr(st *State, p *Val, v *Val, t types.Type) {
 		old := ex.load(st, tg.Loc, t)
 		ex.storeT(st, tg.Loc, ex.ite(tg.G, v, old), t)
 	}
+}
+
+// shapeHavoc produces the havocked value of a non-region leaf. Pointer, slice
+// and interface cells keep their target objects (the points-to shape is
+// preserved by contract-level havoc); nil-ness, slice bounds and the choice
+// between nil and the previous dynamic type are unconstrained.
+func (ex *Exec) shapeHavoc(st *State, o *Obj, key string, t types.Type, nm string) *Val {
+	switch under(t).(type) {
+	case *types.Pointer, *types.Slice, *types.Interface:
+	default:
+		return ex.freshVal(t, nm)
+	}
+	if isErrorType(t) {
+		return ex.freshVal(t, nm)
+	}
+	cur := ex.lookupCell(st, o, key, t, false)
+	switch cur.K {
+	case KPtr:
+		if len(cur.Tg) == 0 {
+			return ex.freshVal(t, nm)
+		}
+		return &Val{K: KPtr, Typ: cur.Typ, Tg: cur.Tg, IsNil: ex.declare(nm+".isnil", BoolSort)}
+	case KSlice:
+		if len(cur.Tg) == 0 {
+			return ex.freshVal(t, nm)
+		}
+		l := ex.declare(nm+".len", BV(64))
+		c := ex.declare(nm+".cap", BV(64))
+		off := ex.declare(nm+".off", BV(64))
+		n := ex.declare(nm+".isnil", BoolSort)
+		ex.fact(And(SLe(BVConst(0, 64), l), SLe(l, c), SLe(c, BVConst(1<<40, 64)), SLe(BVConst(0, 64), off), SLe(off, BVConst(1<<40, 64))))
+		ex.fact(Implies(n, Eq(c, BVConst(0, 64))))
+		return &Val{K: KSlice, Typ: cur.Typ, Tg: cur.Tg, IsNil: n, Off: off, Len: l, Cap: c}
+	case KIface:
+		if cur.Tag.IsConst() && cur.Tag.Const.Sign() == 0 {
+			return ex.freshVal(t, nm)
+		}
+		tag := ex.declare(nm+".tag", BV(16))
+		ex.fact(Or(Eq(tag, BVConst(0, 16)), Eq(tag, cur.Tag)))
+		return &Val{K: KIface, Typ: cur.Typ, Tag: tag, Cases: cur.Cases}
+	}
+	return ex.freshVal(t, nm)
 }
